@@ -518,8 +518,14 @@ class SimLifoQueue(SimQueue):
 
 def id_of(item) -> str:
     """Stable description of a queue item for the event log."""
-    if isinstance(item, (int, str, bytes, float, tuple, type(None))):
+    if isinstance(item, str):
+        # file paths contain the per-process scratch directory: keep the
+        # (seed-derived) file name only
+        return repr(item.rsplit("/", 1)[-1])[:60]
+    if isinstance(item, (int, bytes, float, type(None))):
         return repr(item)[:60]
+    if isinstance(item, tuple):
+        return "(" + ",".join(id_of(x) for x in item[:6]) + ")"
     return type(item).__name__
 
 
